@@ -4,10 +4,12 @@
    function address and every manual-edge list, if the model of translate_function_extended returns a function
    then every edge of its graph joins existing blocks and the entry names an existing block (the exit is unset):
    the "no edge or entry refers to a missing block" clause of C06 for the model.  The remaining structural
-   clauses (each reachable instruction exactly once, entry block at the function address) need tb_spec and are
-   open. *)
+   clauses: recover_once [U] (no hypothesis either): one instruction graph per distinct lifted address;
+   recover_struct_once [U] under tb_spec (block translations are straight-line runs of the program cut ANYWHERE):
+   the items of the result are the disjoint union of the instruction graphs of exactly the addresses reachable
+   from the roots.  "Entry block at the function address" and recover_lang are open. *)
 From Coq Require Import ZArith List Bool NArith Lia.
-From Falcon Require Import Base.Res IL.Const IL.Expr IL.Func Lift.Recover Lift.C06Check.
+From Falcon Require Import Base.Res IL.Const IL.Expr IL.Func Lift.Lang Lift.Recover Lift.C06Check.
 Import ListNotations.
 Local Open Scope Z_scope.
 
@@ -148,3 +150,369 @@ Proof.
     rewrite A, B. reflexivity.
   - unfold has_block, gs_has_block in *. cbn [g_blocks]. exact HB.
 Qed.
+
+(* ------------------------------------------------------------------ every lifted address contributes its graph exactly once *)
+Definition bitems (bs : list block) : list item :=
+  flat_map (fun b => map (fun i => Ins (i_addr i) (i_op i)) (b_instrs b)) bs.
+Lemma all_items_bitems g : all_items g = bitems (g_blocks g).
+Proof. reflexivity. Qed.
+Lemma bitems_app a b : bitems (a ++ b) = bitems a ++ bitems b.
+Proof. unfold bitems. apply flat_map_app. Qed.
+
+Lemma bt_get_insert {A} (m : list (Z * A)) a v a' :
+  bt_get (bt_insert m a v) a' = if a =? a' then Some v else bt_get m a'.
+Proof.
+  induction m as [|[k w] t IH]; cbn [bt_insert bt_get]; [reflexivity|].
+  destruct (Z.ltb_spec a k) as [L|L]; cbn [bt_get]; [reflexivity|].
+  destruct (Z.eqb_spec a k) as [E|E]; cbn [bt_get].
+  - subst k. destruct (Z.eqb_spec a a'); reflexivity.
+  - rewrite IH. destruct (Z.eqb_spec k a') as [E2|E2]; [|reflexivity].
+    subst a'. destruct (Z.eqb_spec a k); [contradiction | reflexivity].
+Qed.
+
+Lemma insert_edge_blocks g e g' : gs_insert_edge g e = Ok g' -> gs_blocks g' = gs_blocks g.
+Proof.
+  unfold gs_insert_edge. destruct (gs_has_edge _ _ _); [discriminate|].
+  destruct (negb _); [discriminate|]. intros [= <-]. reflexivity.
+Qed.
+Lemma fold_insert_edge_blocks es : forall g g', fold_left (fun acc e => a <- acc ;; gs_insert_edge a e) es (Ok g) = Ok g' ->
+  gs_blocks g' = gs_blocks g.
+Proof.
+  induction es as [|e t IH]; cbn [fold_left]; intros g g' H; [injection H as <-; reflexivity|].
+  cbn [bind] in H. destruct (gs_insert_edge g e) as [g1| |] eqn:E.
+  - rewrite (IH _ _ H). eapply insert_edge_blocks; exact E.
+  - exfalso. clear -H. induction t as [|x t IH]; cbn in H; [discriminate | apply IH; exact H].
+  - exfalso. clear -H. induction t as [|x t IH]; cbn in H; [discriminate | apply IH; exact H].
+Qed.
+
+Lemma bitems_renumber (f : block -> Z) bs :
+  bitems (map (fun b => mkblock (f b) (b_next b) (b_instrs b) (b_phis b)) bs) = bitems bs.
+Proof. unfold bitems. induction bs as [|b t IH]; [reflexivity|]. cbn [map flat_map b_instrs]. rewrite IH. reflexivity. Qed.
+
+Lemma insert_items g other g' ee : gs_insert g other = Ok (g', ee) ->
+  bitems (gs_blocks g') = bitems (gs_blocks g) ++ bitems (g_blocks other).
+Proof.
+  unfold gs_insert. intros H. destruct (g_entry other); [|discriminate]. destruct (g_exit other); [|discriminate].
+  inv_bind H. inv_bind H. destruct (bt_get _ _); [|discriminate]. destruct (bt_get _ _); [|discriminate].
+  injection H as <- _. rewrite (fold_insert_edge_blocks _ _ _ E0). cbn [gs_blocks].
+  rewrite bitems_app. f_equal. apply (bitems_renumber (fun b => match bt_get (number_from (gs_next g) (g_blocks other)) (b_index b) with Some j => j | None => b_index b end)).
+Qed.
+
+Lemma NoDup_snoc {A} (l : list A) a : NoDup l -> ~ In a l -> NoDup (l ++ [a]).
+Proof.
+  induction l as [|x t IH]; cbn; intros N NI; [constructor; [intros [] | constructor]|].
+  inversion N as [|? ? Nx Nt]; subst. constructor.
+  - intros I. apply in_app_or in I as [I|[<-|[]]]; [exact (Nx I) | apply NI; left; reflexivity].
+  - apply IH; [exact Nt | intros I; apply NI; right; exact I].
+Qed.
+
+Definition litems (L : list (Z * cfg)) : list item := flat_map (fun x => bitems (g_blocks (snd x))) L.
+
+Record ainv (st : astate) (L : list (Z * cfg)) : Prop := {
+  ai_keys : forall a, bt_get (as_ii st) a <> None <-> In a (map fst L);
+  ai_nodup : NoDup (map fst L);
+  ai_items : bitems (gs_blocks (as_g st)) = litems L }.
+
+Lemma assemble_block_once ins : forall st L be bx prev st' r,
+  ainv st L -> assemble_block st ins be bx prev = Ok (st', r) ->
+  exists L', ainv st' L' /\ incl L L' /\ (forall x, In x L' -> In x L \/ In x ins) /\
+             (forall x, In x ins -> In (fst x) (map fst L')).
+Proof.
+  induction ins as [|[a ig] rest IH]; intros st L be bx prev st' r I H; cbn [assemble_block] in H.
+  - injection H as <- _. exists L. split; [exact I|]. split; [apply incl_refl|]. split; [intros x Hx; left; exact Hx | intros x []].
+  - inv_bind H. destruct a0 as [st1 [en ex]]. cbn [fst snd] in H.
+    assert (S1 : exists L1, ainv st1 L1 /\ incl L L1 /\ (forall x, In x L1 -> In x L \/ x = (a, ig)) /\ In a (map fst L1)).
+    { destruct I as [K N T]. destruct (bt_get (as_ii st) a) as [ee|] eqn:G.
+      - injection E as <- _. exists L. split; [constructor; assumption|]. split; [apply incl_refl|].
+        split; [intros x Hx; left; exact Hx|]. apply K. rewrite G. discriminate.
+      - inv_bind E. destruct a0 as [g1 ee1]. injection E as <- _. cbn [fst snd].
+        exists (L ++ [(a, ig)]). split; [constructor|split; [|split]].
+        + intros a'. cbn [as_ii]. rewrite bt_get_insert, map_app, in_app_iff. cbn [map fst In].
+          destruct (Z.eqb_spec a a') as [Ea|Ea].
+          * split; [intros _; right; left; exact Ea | intros _; discriminate].
+          * rewrite K. split; [intros Hx; left; exact Hx | intros [Hx|[Hx|[]]]; [exact Hx | contradiction]].
+        + rewrite map_app. cbn [map fst]. apply NoDup_snoc; [exact N|]. intros Hx. apply K in Hx. apply Hx. exact G.
+        + cbn [as_g]. rewrite (insert_items _ _ _ _ E0), T. unfold litems. rewrite flat_map_app. cbn [flat_map snd].
+          rewrite app_nil_r. reflexivity.
+        + apply incl_appl, incl_refl.
+        + intros x Hx. apply in_app_or in Hx as [Hx|[<-|[]]]; [left; exact Hx | right; reflexivity].
+        + rewrite map_app. apply in_or_app. right. left. reflexivity. }
+    destruct S1 as (L1 & I1 & Inc1 & From1 & Ina).
+    assert (S2 : exists st2, ainv st2 L1 /\
+              ((exists px, prev = Some px /\ assemble_block st2 rest be ex (Some ex) = Ok (st', r)) \/
+               (prev = None /\ st2 = st1 /\ assemble_block st1 rest en ex (Some ex) = Ok (st', r)))).
+    { destruct prev as [px|].
+      - inv_bind H. exists (mkas a0 (as_ii st1)). split.
+        + destruct I1 as [K N T]. constructor; cbn [as_ii as_g]; [exact K | exact N |].
+          destruct (gs_has_edge (as_g st1) px en).
+          * injection E0 as <-. exact T.
+          * rewrite (insert_edge_blocks _ _ _ E0). exact T.
+        + left. exists px. split; [reflexivity | exact H].
+      - exists st1. split; [exact I1|]. right. split; [reflexivity|]. split; [reflexivity | exact H]. }
+    destruct S2 as [st2 [I2 [[px [_ H2]]|[_ [Es H2]]]]]; [|subst st2].
+    + destruct (IH _ _ _ _ _ _ _ I2 H2) as (L' & I' & Inc' & From' & Cov').
+      exists L'. split; [exact I'|]. split; [eapply incl_tran; [exact Inc1 | exact Inc']|]. split.
+      * intros x Hx. destruct (From' x Hx) as [Hx1|Hx1]; [|right; right; exact Hx1].
+        destruct (From1 x Hx1) as [Hx2 | ->]; [left; exact Hx2 | right; left; reflexivity].
+      * intros x [<-|Hx]; [cbn [fst]; apply (incl_map fst Inc'); exact Ina | apply Cov'; exact Hx].
+    + destruct (IH _ _ _ _ _ _ _ I2 H2) as (L' & I' & Inc' & From' & Cov').
+      exists L'. split; [exact I'|]. split; [eapply incl_tran; [exact Inc1 | exact Inc']|]. split.
+      * intros x Hx. destruct (From' x Hx) as [Hx1|Hx1]; [|right; right; exact Hx1].
+        destruct (From1 x Hx1) as [Hx2 | ->]; [left; exact Hx2 | right; left; reflexivity].
+      * intros x [<-|Hx]; [cbn [fst]; apply (incl_map fst Inc'); exact Ina | apply Cov'; exact Hx].
+Qed.
+
+Lemma assemble_once results : forall st L bi st' bi',
+  ainv st L -> assemble st results bi = Ok (st', bi') ->
+  exists L', ainv st' L' /\ incl L L' /\
+    (forall x, In x L' -> In x L \/ exists a r, In (a, r) results /\ In x (br_instrs r)) /\
+    (forall a r x, In (a, r) results -> In x (br_instrs r) -> In (fst x) (map fst L')).
+Proof.
+  induction results as [|[a r] rest IH]; intros st L bi st' bi' I H; cbn [assemble] in H.
+  - injection H as <- _. exists L. split; [exact I|]. split; [apply incl_refl|].
+    split; [intros x Hx; left; exact Hx | intros ? ? ? []].
+  - inv_bind H. destruct a0 as [st1 ee]. cbn [fst snd] in H.
+    destruct (assemble_block_once _ _ _ _ _ _ _ _ I E) as (L1 & I1 & Inc1 & From1 & Cov1).
+    destruct (IH _ _ _ _ _ I1 H) as (L' & I' & Inc' & From' & Cov').
+    exists L'. split; [exact I'|]. split; [eapply incl_tran; eassumption|]. split.
+    + intros x Hx. destruct (From' x Hx) as [Hx1|(a' & r' & Ir & Ix)].
+      * destruct (From1 x Hx1) as [Hx2|Hx2]; [left; exact Hx2|]. right. exists a, r. split; [left; reflexivity | exact Hx2].
+      * right. exists a', r'. split; [right; exact Ir | exact Ix].
+    + intros a' r' x [E'|Ir] Ix.
+      * injection E' as <- <-. apply (incl_map fst Inc'). apply Cov1. exact Ix.
+      * eapply Cov'; eassumption.
+Qed.
+
+Lemma fold_blocks {A} (f : gstate -> A -> res gstate) :
+  (forall g x g', f g x = Ok g' -> gs_blocks g' = gs_blocks g) ->
+  forall l g g', fold_left (fun acc x => g0 <- acc ;; f g0 x) l (Ok g) = Ok g' -> gs_blocks g' = gs_blocks g.
+Proof.
+  intros F l. induction l as [|x t IH]; cbn [fold_left]; intros g g' H; [injection H as <-; reflexivity|].
+  cbn [bind] in H. destruct (f g x) as [g1| |] eqn:E.
+  - rewrite (IH _ _ H). eapply F; exact E.
+  - exfalso. clear -H. induction t as [|y t IH]; cbn in H; [discriminate | apply IH; exact H].
+  - exfalso. clear -H. induction t as [|y t IH]; cbn in H; [discriminate | apply IH; exact H].
+Qed.
+
+Lemma add_manual_blocks bi g m g' : add_manual bi g m = Ok g' -> gs_blocks g' = gs_blocks g.
+Proof.
+  unfold add_manual. intros H. inv_bind H. inv_bind H. destruct (gs_has_edge _ _ _).
+  - injection H as <-. reflexivity.
+  - eapply insert_edge_blocks; exact H.
+Qed.
+Lemma add_successors_blocks bi g ar g' : add_successors bi g ar = Ok g' -> gs_blocks g' = gs_blocks g.
+Proof.
+  unfold add_successors. intros H. inv_bind H.
+  eapply (fold_blocks (fun g' s => e <- bi_get bi (fst s) ;;
+     if gs_has_edge g' (snd a) (fst e) then Ok g' else gs_insert_edge g' (mkedge (snd a) (fst e) (snd s)))); [|exact H].
+  clear H. intros g0 x g1 H. inv_bind H. destruct (gs_has_edge _ _ _).
+  - injection H as <-. reflexivity.
+  - eapply insert_edge_blocks; exact H.
+Qed.
+
+(* [U], no hypothesis on the block translator: the (address, operation) items of the recovered function are
+   exactly those of ONE instruction graph per distinct instruction address occurring in the discovered block
+   translations -- the graph listed by the first block (in address order) that contains the address. *)
+Theorem recover_once tb fa manual f : recover tb fa manual = Ok f ->
+  exists results L,
+    discover tb (discover_fuel tb manual) (fa :: flat_map (fun m => [mm_head m; mm_tail m]) manual) [] = Ok results /\
+    NoDup (map fst L) /\
+    (forall x, In x L -> exists a r, In (a, r) results /\ In x (br_instrs r)) /\
+    (forall a r x, In (a, r) results -> In x (br_instrs r) -> In (fst x) (map fst L)) /\
+    all_items (f_cfg f) = flat_map (fun x => all_items (snd x)) L.
+Proof.
+  unfold recover. intros H. inv_bind H. inv_bind H. destruct a0 as [st bi]. cbn [fst snd] in H.
+  inv_bind H. inv_bind H. inv_bind H. destruct (gs_has_block a1 (fst a2)); [|discriminate]. injection H as <-.
+  assert (I0 : ainv (mkas (mkgs [] [] 0) []) []).
+  { constructor; cbn; [intros x; split; [intros X; exfalso; apply X; reflexivity | intros []] | constructor | reflexivity]. }
+  destruct (assemble_once _ _ _ _ _ _ I0 E0) as (L & I & _ & From & Cov).
+  exists a, L. split; [reflexivity|]. split; [exact (ai_nodup _ _ I)|]. split; [|split; [exact Cov|]].
+  - intros x Hx. destruct (From x Hx) as [[]|X]. exact X.
+  - cbn [f_cfg]. rewrite all_items_bitems. cbn [g_blocks].
+    assert (B2 : gs_blocks a1 = gs_blocks a0).
+    { eapply (fold_blocks (add_successors bi)); [|exact E2]. intros; eapply add_successors_blocks; eassumption. }
+    assert (B1 : gs_blocks a0 = gs_blocks (as_g st)).
+    { eapply (fold_blocks (add_manual bi)); [|exact E1]. intros; eapply add_manual_blocks; eassumption. }
+    rewrite B2, B1, (ai_items _ _ I). reflexivity.
+Qed.
+
+(* ------------------------------------------------------------------ the abstract machine and tb_spec *)
+Record minstr := mkmi {
+  mi_graph : cfg;                                    (* the IL of the instruction (lifted in isolation) *)
+  mi_len : Z;
+  mi_succ : option (list (Z * option expr)) }.       (* None: falls through to the next address *)
+
+Section Spec.
+  Variable prog : Z -> option minstr.                (* None: unmapped *)
+
+  Definition direct_succ (a y : Z) : Prop :=
+    exists p, prog a = Some p /\ match mi_succ p with None => y = a + mi_len p | Some s => In y (map fst s) end.
+  Inductive reach (roots : list Z) : Z -> Prop :=
+  | reach_root r : In r roots -> reach roots r
+  | reach_step a y : reach roots a -> direct_succ a y -> reach roots y.
+
+  (* what a block translation started at [a] may be: a straight-line run of prog's instructions from a, ended by
+     the first control transfer (with its successors) or ANYWHERE earlier (with the fall-through successor).
+     Where the run is cut -- the 64-byte window -- is left completely open. *)
+  Inductive run_spec : Z -> list (Z * cfg) -> list (Z * option expr) -> Prop :=
+  | rs_ctl a p s : prog a = Some p -> mi_succ p = Some s -> run_spec a [(a, mi_graph p)] s
+  | rs_cut a p : prog a = Some p -> mi_succ p = None -> run_spec a [(a, mi_graph p)] [(a + mi_len p, None)]
+  | rs_cons a p rest s : prog a = Some p -> mi_succ p = None -> run_spec (a + mi_len p) rest s ->
+      run_spec a ((a, mi_graph p) :: rest) s.
+
+  Definition tb_spec (tb : tbtable) : Prop :=
+    forall a, match tb_lookup tb a with
+              | Some (Ok r) => run_spec a (br_instrs r) (br_succ r)
+              | Some _ => True
+              | None => prog a = None
+              end.
+
+  Definition graph_at (x : Z) : cfg := match prog x with Some p => mi_graph p | None => empty_block_cfg end.
+
+  Lemma run_head a ins s : run_spec a ins s -> exists g tl, ins = (a, g) :: tl.
+  Proof. intros H. destruct H; eexists; eexists; reflexivity. Qed.
+
+  Lemma run_graphs a ins s : run_spec a ins s -> forall x ig, In (x, ig) ins -> ig = graph_at x /\ prog x <> None.
+  Proof.
+    induction 1 as [a p s P K|a p P K|a p rest s P K R IH]; intros x ig I.
+    - destruct I as [E|[]]. injection E as <- <-. unfold graph_at. rewrite P. split; [reflexivity | discriminate].
+    - destruct I as [E|[]]. injection E as <- <-. unfold graph_at. rewrite P. split; [reflexivity | discriminate].
+    - destruct I as [E|I]; [|apply IH; exact I]. injection E as <- <-. unfold graph_at. rewrite P. split; [reflexivity | discriminate].
+  Qed.
+
+  Lemma run_step a ins s : run_spec a ins s -> forall x y, In x (map fst ins) -> direct_succ x y ->
+    In y (map fst ins) \/ In y (map fst s).
+  Proof.
+    induction 1 as [a p s P K|a p P K|a p rest s P K R IH]; intros x y I (q & Pq & D).
+    - destruct I as [<-|[]]. cbn [fst] in Pq. rewrite P in Pq. injection Pq as <-. rewrite K in D. right. exact D.
+    - destruct I as [<-|[]]. cbn [fst] in Pq. rewrite P in Pq. injection Pq as <-. rewrite K in D. right. left. symmetry. exact D.
+    - destruct I as [<-|I].
+      + cbn [fst] in Pq. rewrite P in Pq. injection Pq as <-. rewrite K in D. left. right.
+        destruct (run_head _ _ _ R) as (g0 & tl & ->). left. symmetry. exact D.
+      + destruct (IH x y I (ex_intro _ q (conj Pq D))) as [H|H]; [left; right; exact H | right; exact H].
+  Qed.
+
+  Lemma run_reach roots a ins s : run_spec a ins s -> reach roots a ->
+    (forall x, In x (map fst ins) -> reach roots x) /\ (forall y, In y (map fst s) -> reach roots y).
+  Proof.
+    induction 1 as [a p s P K|a p P K|a p rest s P K R IH]; intros Ra.
+    - split; [intros x [<-|[]]; exact Ra|]. intros y I. eapply reach_step; [exact Ra|]. exists p. rewrite K. split; assumption.
+    - split; [intros x [<-|[]]; exact Ra|]. intros y [<-|[]]. eapply reach_step; [exact Ra|]. exists p. rewrite K. split; [exact P | reflexivity].
+    - assert (Rn : reach roots (a + mi_len p)) by (eapply reach_step; [exact Ra|]; exists p; rewrite K; split; [exact P | reflexivity]).
+      destruct (IH Rn) as [I1 I2]. split; [|exact I2]. intros x [<-|I]; [exact Ra | apply I1; exact I].
+  Qed.
+
+  (* ---------- the discovery loop ---------- *)
+  Lemma bt_mem_insert {A} (m : list (Z * A)) a v x : bt_mem (bt_insert m a v) x = (a =? x) || bt_mem m x.
+  Proof.
+    induction m as [|[k w] t IH]; cbn [bt_insert bt_mem]; [reflexivity|].
+    destruct (Z.ltb_spec a k) as [L|L]; cbn [bt_mem]; [reflexivity|].
+    destruct (Z.eqb_spec a k) as [E|E]; cbn [bt_mem].
+    - subst k. destruct (a =? x); reflexivity.
+    - rewrite IH. destruct (k =? x), (a =? x); reflexivity.
+  Qed.
+  Lemma bt_in_insert {A} (m : list (Z * A)) a v y : In y (bt_insert m a v) -> y = (a, v) \/ In y m.
+  Proof.
+    induction m as [|[k w] t IH]; cbn [bt_insert]; [intros [<-|[]]; left; reflexivity|].
+    destruct (a <? k); [intros [<-|I]; [left; reflexivity | right; exact I]|].
+    destruct (a =? k); [intros [<-|I]; [left; reflexivity | right; right; exact I]|].
+    intros [<-|I]; [right; left; reflexivity|]. destruct (IH I) as [E|I']; [left; exact E | right; right; exact I'].
+  Qed.
+  Lemma bt_mem_in {A} (m : list (Z * A)) x : bt_mem m x = true -> exists v, In (x, v) m.
+  Proof.
+    induction m as [|[k w] t IH]; cbn [bt_mem]; [discriminate|]. intros H. apply orb_prop in H as [H|H].
+    - apply Z.eqb_eq in H. subst k. exists w. left. reflexivity.
+    - destruct (IH H) as [v I]. exists v. right. exact I.
+  Qed.
+  Lemma enqueue_in succ : forall q x, In x (enqueue_succ q succ) <-> In x q \/ In x (map fst succ).
+  Proof.
+    unfold enqueue_succ. induction succ as [|s t IH]; intros q x; cbn [fold_left map]; [cbn [In]; tauto|].
+    rewrite IH. destruct (existsb (Z.eqb (fst s)) q) eqn:E.
+    - apply existsb_exists in E as (z & Iz & Ez). apply Z.eqb_eq in Ez. subst z. cbn [In]. split; [tauto|].
+      intros [H|[<-|H]]; [left; exact H | left; exact Iz | right; exact H].
+    - rewrite in_app_iff. cbn [In]. tauto.
+  Qed.
+
+  Definition result_of (tb : tbtable) (a : Z) (r : block_result) : Prop :=
+    tb_lookup tb a = Some (Ok r) \/ (tb_lookup tb a = None /\ r = mkbr [(a, empty_block_cfg)] []).
+
+  Record dinv (tb : tbtable) (roots q : list Z) (results : list (Z * block_result)) : Prop := {
+    d_entry : forall a r, In (a, r) results -> result_of tb a r;
+    d_succ : forall a r s, In (a, r) results -> In s (map fst (br_succ r)) -> bt_mem results s = true \/ In s q;
+    d_roots : forall x, In x roots -> bt_mem results x = true \/ In x q;
+    d_reach : (forall a r, In (a, r) results -> reach roots a) /\ (forall x, In x q -> reach roots x) }.
+
+  Lemma discover_inv tb roots : tb_spec tb -> forall fuel q results final,
+    dinv tb roots q results -> discover tb fuel q results = Ok final -> dinv tb roots [] final.
+  Proof.
+    intros TS. induction fuel as [|fuel IH]; intros q results final I H; cbn [discover] in H; [discriminate|].
+    destruct q as [|a q']; [injection H as <-; exact I|].
+    destruct I as [De Ds Dr [Dk Dq]].
+    destruct (bt_mem results a) eqn:M.
+    - eapply IH; [|exact H]. constructor; [exact De | | | split; [exact Dk | intros x Hx; apply Dq; right; exact Hx]].
+      + intros b r s Ib Is. destruct (Ds b r s Ib Is) as [X|[<-|X]]; [left; exact X | left; exact M | right; exact X].
+      + intros x Hx. destruct (Dr x Hx) as [X|[<-|X]]; [left; exact X | left; exact M | right; exact X].
+    - pose proof (TS a) as Ta.
+      assert (Step : forall r q2, result_of tb a r -> (forall x, In x q2 <-> In x q' \/ In x (map fst (br_succ r))) ->
+                (forall y, In y (map fst (br_succ r)) -> reach roots y) ->
+                dinv tb roots q2 (bt_insert results a r)).
+      { intros r q2 Ra Q2 Rs. constructor.
+        - intros b r' Ib. apply bt_in_insert in Ib as [E|Ib]; [injection E as -> ->; exact Ra | apply De; exact Ib].
+        - intros b r' s Ib Is. rewrite bt_mem_insert. apply bt_in_insert in Ib as [E|Ib].
+          + injection E as -> ->. right. apply Q2. right. exact Is.
+          + destruct (Ds b r' s Ib Is) as [X|[<-|X]]; [left; rewrite X; apply orb_true_r | left; rewrite Z.eqb_refl; reflexivity | right; apply Q2; left; exact X].
+        - intros x Hx. rewrite bt_mem_insert. destruct (Dr x Hx) as [X|[<-|X]];
+            [left; rewrite X; apply orb_true_r | left; rewrite Z.eqb_refl; reflexivity | right; apply Q2; left; exact X].
+        - split.
+          + intros b r' Ib. apply bt_in_insert in Ib as [E|Ib]; [injection E as -> _; apply Dq; left; reflexivity | eapply Dk; exact Ib].
+          + intros x Hx. apply Q2 in Hx as [Hx|Hx]; [apply Dq; right; exact Hx | apply Rs; exact Hx]. }
+      destruct (tb_lookup tb a) as [[r| |]|] eqn:L; try discriminate.
+      + eapply IH; [|exact H]. apply Step; [left; exact L | intros x; apply enqueue_in |].
+        assert (Raa : reach roots a) by (apply Dq; left; reflexivity).
+        destruct (run_reach roots _ _ _ Ta Raa) as [_ R2]. exact R2.
+      + eapply IH; [|exact H]. apply Step; [right; split; [exact L | reflexivity] | intros x; cbn [br_succ map In]; tauto | intros y []].
+  Qed.
+
+  (* [U] recover_struct, clause "every reachable address contributes its IL exactly once", for EVERY placement of
+     the block ends: the items of the recovered function are the disjoint union, over exactly the addresses
+     reachable from the roots (function address and manual-edge endpoints) through direct successors, of the
+     items of that address's instruction graph (the empty block for an unmapped address). *)
+  Theorem recover_struct_once tb fa manual f : tb_spec tb -> recover tb fa manual = Ok f ->
+    let roots := fa :: flat_map (fun m => [mm_head m; mm_tail m]) manual in
+    exists L, NoDup (map fst L) /\
+      (forall x, In x (map fst L) <-> reach roots x) /\
+      (forall x ig, In (x, ig) L -> ig = graph_at x) /\
+      all_items (f_cfg f) = flat_map (fun x => all_items (snd x)) L.
+  Proof.
+    intros TS H roots. destruct (recover_once _ _ _ _ H) as (results & L & D & ND & From & Cov & Items).
+    assert (I0 : dinv tb roots roots []).
+    { constructor; [intros ? ? [] | intros ? ? ? [] | intros x Hx; right; exact Hx |].
+      split; [intros ? ? [] | intros x Hx; apply reach_root; exact Hx]. }
+    pose proof (discover_inv tb roots TS _ _ _ _ I0 D) as [De Ds Dr [Dk _]].
+    (* what a discovered result looks like *)
+    assert (Shape : forall a r, In (a, r) results ->
+              (run_spec a (br_instrs r) (br_succ r)) \/ (prog a = None /\ r = mkbr [(a, empty_block_cfg)] [])).
+    { intros a r Ia. pose proof (TS a) as Ta. destruct (De a r Ia) as [E|[E ->]]; rewrite E in Ta; [left; exact Ta | right; split; [exact Ta | reflexivity]]. }
+    exists L. split; [exact ND|]. split; [|split; [|exact Items]].
+    - intros x. split.
+      + intros Hx. apply in_map_iff in Hx as ([x' ig] & Ex & Hx). cbn [fst] in Ex. subst x'.
+        destruct (From _ Hx) as (a & r & Ia & Ix). pose proof (Dk _ _ Ia) as Ra.
+        destruct (Shape _ _ Ia) as [Rs|[_ ->]].
+        * destruct (run_reach roots _ _ _ Rs Ra) as [R1 _]. apply R1. apply in_map_iff. exists (x, ig). split; [reflexivity | exact Ix].
+        * destruct Ix as [E|[]]. injection E as <- _. exact Ra.
+      + intros Rx. assert (X : exists a r, In (a, r) results /\ In x (map fst (br_instrs r))).
+        { induction Rx as [r0 Ir|a0 y Ra IH Dy].
+          - destruct (Dr _ Ir) as [M|[]]. apply bt_mem_in in M as [r Ia]. exists r0, r. split; [exact Ia|].
+            destruct (Shape _ _ Ia) as [Rs|[_ ->]]; [destruct (run_head _ _ _ Rs) as (g0 & tl & ->)|]; left; reflexivity.
+          - destruct IH as (b & r & Ib & Ia0). destruct (Shape _ _ Ib) as [Rs|[Pb ->]].
+            + destruct (run_step _ _ _ Rs _ _ Ia0 Dy) as [Iy|Iy]; [exists b, r; split; assumption|].
+              destruct (Ds _ _ _ Ib Iy) as [M|[]]. apply bt_mem_in in M as [r' Iy']. exists y, r'. split; [exact Iy'|].
+              destruct (Shape _ _ Iy') as [Rs'|[_ ->]]; [destruct (run_head _ _ _ Rs') as (g0 & tl & ->)|]; left; reflexivity.
+            + exfalso. destruct Ia0 as [<-|[]]. destruct Dy as (p & Pp & _). cbn [fst] in Pp. rewrite Pb in Pp. discriminate. }
+        destruct X as (a & r & Ia & Ix). apply in_map_iff in Ix as ([x' ig] & Ex & Ix). cbn [fst] in Ex. subst x'.
+        apply (Cov _ _ _ Ia Ix).
+    - intros x ig Hx. destruct (From _ Hx) as (a & r & Ia & Ix). destruct (Shape _ _ Ia) as [Rs|[Pa ->]].
+      + apply (run_graphs _ _ _ Rs _ _ Ix).
+      + destruct Ix as [E|[]]. injection E as <- <-. unfold graph_at. rewrite Pa. reflexivity.
+  Qed.
+End Spec.
